@@ -1,5 +1,6 @@
 import MalVerif.Py.TieLangTypeBuild
 import MalVerif.Py.TieLangTypeFinal
+import MalVerif.Py.TieLangTypeTotal
 /-!
 # C15 for the *translated* construction of the language graph (`_generate_graph`, `process_step_expression`)
 
@@ -212,6 +213,31 @@ theorem overapprox_translated (L : Lang) (hw : WellFormed L) (R : Nat) (s : TH) 
   have hf : builtNodes s = g.assocs := hb.full
   rw [hf] at hfu hv hexpr
   exact hb.overapprox hg m ns es hgen hw.acyclic hfu hns hv hexpr a b hab
+
+/-- **the translated `_generate_graph` agrees with the hand model for every sufficiently large recursion limit**:
+whenever `LG.generate` accepts a well-formed language there is a bound `R0` such that for every recursion limit
+`R ≥ R0` the translated construction returns, and the heap is `Built` for the hand model's graph (with
+`built_of_run` and `rejected_when_model_rejects`: the general form of `BuildAgrees`, links up to their order,
+`link_order_differs`) -/
+theorem build_agrees_large (L : Lang) (hw : WellFormed L) (g : Graph) (hg : generate L = .ok g) :
+    ∃ R0, ∀ R, R0 ≤ R → ∃ s, runBuild L R = .ok s ∧ Built s L g := by
+  have hL := absLang_loadPy L hw.load
+  have := build_total_large (loadPy L) (specOK_loadPy L hw.load hw.names) (by rw [hL]; exact hw.acyclic)
+    (by rw [hL]; exact hw.fuel) g (by rw [hL]; exact hg)
+  rw [hL] at this
+  exact this
+
+/-- **`Acyclic` cannot be dropped**: with `A extends B extends A` the translated code (like the Python) exhausts its
+recursion, the fuel-bounded hand model accepts the language -/
+theorem acyclic_needed : runBuild cycL 1000 = .error .recursionError ∧ (generate cycL).toOption.isSome = true ∧
+    ¬ Acyclic cycL := by
+  refine ⟨?_, by decide, fun hac => ?_⟩
+  · have := build_cyclic_extends.1
+    cases h : runBuild cycL 1000 with
+    | ok s => rw [h] at this; cases this
+    | error e => rw [h] at this; simp only [Except.map] at this; cases this; rfl
+  · have := hac "C"
+    exact absurd this (by decide)
 
 /-- non-vacuity: the demo languages are `WellFormed` (decidable conditions) … -/
 example : WellFormed lgL ∧ WellFormed opsL ∧ WellFormed dirL ∧ WellFormed starL ∧ WellFormed kfL :=
